@@ -438,7 +438,10 @@ class Gen:
                 ENC.add_sub(nm, kind)
             if not any(x[0] == nm for x in self.decl['subs']):
                 self.decl['subs'].append([nm, kind, {}])
-            return ENC.subs[nm][0].fromisoformat(r.choice(iso))
+            # (values that no ISO text of the pools and no plain object below denotes: an instance of a subclass is EQUAL to the plain
+            # object of the same value and a set keeps only one of them, which the model's `==` on subclass instances does not say)
+            iso_sub = {'datetime': ['2001-02-03T04:05:06'], 'date': ['1987-06-05'], 'time': ['07:08:09']}[kind]
+            return ENC.subs[nm][0].fromisoformat(r.choice(iso_sub))
         return base.fromisoformat(r.choice(iso))
 
     def hashable_form(self, x):
@@ -590,7 +593,8 @@ def scenarios_conv(seed, n, op='from_data', max_depth=3, classes=True, history=0
             pre = []
             for _ in range(gen.r.randint(1, 3)):
                 try:
-                    w = ENC.enc(gen.valid(ty))
+                    # other valid values -- and values the type refuses: a refusal must leave no trace either
+                    w = ENC.enc(gen.valid(ty) if gen.r.random() < 0.6 else gen.mutate(gen.valid(ty)))
                     json.dumps(w)
                     pre.append({'ty': ty, 'val': w})
                 except Exception:
@@ -611,7 +615,10 @@ def scenarios_union_boundary(seed, n, ops=('from_data', 'roundtrip', 'convert2')
              (['Decimal', 'datetime', 'str'], [__import__('datetime').datetime(2020, 1, 2, 3, 4, 5)]), (['date', 'datetime'], [__import__('datetime').datetime(2020, 1, 2, 3, 4, 5)]),
              # a later member's value that an EARLIER member accepts as an object (a datetime is a date): the serialiser must write it whole
              (['date', 'datetime'], ['2020-01-02T03:04:05', '2020-01-02', '2021-12-31T23:59:59']), (['time', 'date', 'datetime'], ['2020-01-02T03:04:05']), (['time', 'datetime', 'str'], ['2020-01-02T03:04:05', 'x']),
-             (['datetime', 'Fraction', 'str'], ['1/2', 'soon']), (['float', 'Fraction', 'int'], [10 ** 400])]
+             (['datetime', 'Fraction', 'str'], ['1/2', 'soon']), (['float', 'Fraction', 'int'], [10 ** 400]),
+             # ... and families in which a LATER value is taken only by the member that refused an earlier value of the same Python type
+             (['Decimal', 'NoneType'], ['one and a half', '2.5', 'x', '10']), (['Fraction', 'NoneType'], ['1/0', '3/4', 'abc', '7']),
+             (['float', 'NoneType'], [10 ** 400, 5, -10 ** 400, 2]), (['int', 'Fraction'], ['1/0', '1/2']), (['date', 'NoneType'], ['tbd', '2020-01-02'])]
     out = []
     for i in range(n):
         r = random.Random(g.randrange(1 << 62))
@@ -631,7 +638,15 @@ def scenarios_union_boundary(seed, n, ops=('from_data', 'roundtrip', 'convert2')
             name = f'Ub{seed % 1000}x{i}'
             decl['classes'].append({'name': name, 'fields': [{'name': 'x', 'ty': ty}, {'name': 'n', 'ty': 'int', 'default': {'value': {'i': '0'}}}], 'opts': {}, 'hook': None})
             ty, wire = {'cls': [name, []]}, {'d': [['x', wire]]}
-        out.append({'id': f'ub{seed}:{i}', 'decl': decl, 'op': r.choice(ops), 'ty': ty, 'val': wire, 'spell': r.randrange(2), 'stream': 'union-boundary'})
+        sc = {'id': f'ub{seed}:{i}', 'decl': decl, 'op': r.choice(ops), 'ty': ty, 'val': wire, 'spell': r.randrange(2), 'stream': 'union-boundary'}
+        if shape in ('bare', 'optional') and r.random() < 0.6:
+            # the OTHER values of the family first, on the same (memoised) converter: a member that refused one value of a Python
+            # type by value must still be asked about the next value of that type
+            try:
+                sc['pre'] = [{'ty': ty, 'val': ENC.enc(o)} for o in vals if o is not v][:3]
+            except Exception:
+                pass
+        out.append(sc)
     return out
 
 
@@ -1024,6 +1039,11 @@ def scenarios_construct(seed, n):
         elif path == 'from_data_struct':
             try:
                 data = dict(vals)
+                for f in d['fields']:
+                    # a field given under one of its OTHER input names (an alias): the record of set fields holds the field
+                    al = (f.get('spec') or {}).get('aliases')
+                    if al and f['name'] in data and r.random() < 0.6:
+                        data = {(al[0] if k == f['name'] else k): v for k, v in data.items()}
                 if d['opts'].get('allow_extra'):
                     # ignored unknown keys, possibly as many as there are fields left out: defaults are still filled in and a
                     # missing required field is still an error
@@ -1246,6 +1266,22 @@ def scenarios_valuesem(seed, n):
         order_opt = opts.get('order', True)
         frozen = opts.get('frozen', True)
         decl = {'enums': [], 'subs': [], 'classes': [d]}
+        noinit_name = None
+        if not generic and len(d['fields']) >= 2 and r.random() < 0.15:
+            # a field that is not a constructor parameter (init=False, with a default) but holds a value of its own on the instances
+            # (assigned after construction): copy and deepcopy carry it over like any other field
+            f = d['fields'][-1]
+            f.setdefault('spec', {})['init'] = False
+            noinit_name = f['name']
+        elif not generic and len(d['fields']) >= 2 and r.random() < 0.2:
+            # the same fields contributed by TWO pane bases to a class that declares none itself (`class S(SA, SB): pass`): equality,
+            # order and hash range over the fields of both bases
+            cut = r.randint(1, len(d['fields']) - 1)
+            # (`_process` walks reversed(mro[1:]): the fields of the LATER base come first)
+            da = {'name': name + 'A', 'fields': d['fields'][cut:], 'opts': dict(opts), 'hook': None}
+            db = {'name': name + 'B', 'fields': d['fields'][:cut], 'opts': dict(opts), 'hook': None}
+            d = {'name': name, 'fields': [], 'opts': {}, 'hook': None, 'base': {'cls': [name + 'A', []]}, 'mixins': [{'cls': [name + 'B', []], 'first': False}]}
+            decl = {'enums': [], 'subs': [], 'classes': [da, db, d]}
         # pool of instances colliding on prefixes
         base = [hg.valid(t, 2) for t in ftys]
         for k, t in enumerate(ftys):
@@ -1262,7 +1298,7 @@ def scenarios_valuesem(seed, n):
                     if isinstance(v, float) and (v != v or v in (float('inf'), float('-inf'))):
                         v = 0.5
                     vals[k] = tuple(v) if isinstance(v, list) else v
-            setf = [fn for fn in fnames if r.random() < 0.6]
+            setf = [fn for fn in fnames if r.random() < 0.6 and fn != noinit_name]
             pool.append({'obj': [name, [[fn, ENC.enc(v)] for fn, v in zip(fnames, vals)], setf]})
         keys = [name] * len(pool)
         tys = []
@@ -1283,8 +1319,10 @@ def scenarios_valuesem(seed, n):
         sc0 = {'decl': decl, 'spell': 0, 'stream': 'valuesem', 'tys': tys}
         a, b = r.randrange(len(pool)), r.randrange(len(pool))
         op = r.choice(['cmp', 'cmp', 'cmp', 'repr', 'setattr', 'delattr', 'copy', 'replace', 'dictview', 'copyset', 'copyset'])
+        if noinit_name is not None:
+            op = r.choice(['cmp', 'copy', 'copy', 'copyset', 'repr'])     # (replace() with such a field: known finding N13)
         sc = dict(sc0, id=f'v{seed}:{i}', op=op)
-        if op == 'repr' and not generic and r.random() < 0.6:
+        if op == 'repr' and not generic and d['fields'] and r.random() < 0.6:
             # repr is a function of the field values, whatever happened before: the first field loses its default, an instance
             # that LACKS it is shown (AttributeError), the field is then assigned and the instance is shown again
             d['fields'][0].pop('default', None)
@@ -1299,7 +1337,7 @@ def scenarios_valuesem(seed, n):
             sc.update(cls=pool[a]['obj'][0], obj=pool[a], name=r.choice(fnames), val=ENC.enc(hg.valid(ftys[0], 2) if r.random() < 0.5 else 'zz'), frozen=frozen)
         elif op == 'copyset':
             k = r.randrange(len(fnames))
-            sc.update(cls=pool[a]['obj'][0], obj=pool[a], how=r.choice(['copy', 'deepcopy', 'replace', 'fromdict']), mutate=r.choice(['orig', 'copy']),
+            sc.update(cls=pool[a]['obj'][0], obj=pool[a], how=r.choice(['copy', 'deepcopy', 'replace', 'fromdict'] if noinit_name is None else ['copy', 'deepcopy', 'fromdict']), mutate=r.choice(['orig', 'copy']),
                       name=fnames[k], val=ENC.enc(hg.valid(ftys[k], 2)), frozen=frozen)
         elif op == 'copy':
             sc.update(cls=pool[a]['obj'][0], obj=pool[a], deep=r.random() < 0.5)
@@ -1492,6 +1530,11 @@ def scenarios_registered(seed, n):
         # per-scenario table of stdlib results does not list)
         heads = r.sample([h for h in ['int', 'str', ename, sname, 'list', 'dict', cname, 'float'] if h != sbase], r.randint(1, 4))
         reg = [{'entries': [[h, 'tagint:%d' % (3 + k)] for k, h in enumerate(heads)], 'exactOnly': False}]
+        if len(heads) >= 2 and r.random() < 0.5:
+            # two handlers registered one after the other (made by the same factory: same module and qualified name), for
+            # different heads: both stay registered, in registration order
+            cut = r.randint(1, len(heads) - 1)
+            reg = [{'entries': reg[0]['entries'][:cut], 'exactOnly': False}, {'entries': reg[0]['entries'][cut:], 'exactOnly': False}]
         hs = None
         if r.random() < 0.35:
             hs = {'globals': [{'entries': [[r.choice(heads), 'tagint:11']], 'exactOnly': r.random() < 0.5}]}
@@ -2291,7 +2334,18 @@ def scenarios_generic_nested(seed, n, op='from_data'):
                         {'cls': [inner, [it]]}])
         do = {'name': outer, 'fields': [{'name': 'items', 'ty': fty}], 'opts': {}, 'hook': None, 'tvars': ['T']}
         named_bare = r.random() < 0.25
-        if named_bare:
+        resub = (not named_bare) and r.random() < 0.2
+        if resub:
+            # the field's type is the inner generic subscripted TWICE, the outer class's variable entering at the second
+            # subscription: `items: GI2[List[V], W][T, int]` must become `GI2[list[<arg>], int]` when the outer class is subscripted
+            gi2 = ge.fresh('GP')
+            d2 = {'name': gi2, 'fields': [{'name': 'v', 'ty': tv('A')}, {'name': 'w', 'ty': tv('B'), 'default': {'value': None}}], 'opts': {}, 'hook': None, 'tvars': ['A', 'B']}
+            fty = {'resub': [{'cls': [gi2, [{'seq': ['list', tv('V')]}, tv('W')]]}, [tv('T'), 'int']]}
+            do = {'name': outer, 'fields': [{'name': 'items', 'ty': fty}], 'opts': {}, 'hook': None, 'tvars': ['T']}
+            ge.decl['classes'] += [d2, do]
+            ge.class_info[gi2] = d2
+            ge.class_info[inner], ge.class_info[outer] = di, do
+        elif named_bare:
             # a NAMED, still generic subclass of the subscripted inner class (`class GN(GI[T]): code: int = 0`), used BARE as a field
             # type of the generic outer class: the annotation mentions no type variable, so subscripting the outer class leaves it alone
             gn = ge.fresh('GN')
@@ -2302,7 +2356,7 @@ def scenarios_generic_nested(seed, n, op='from_data'):
             do = {'name': outer, 'fields': [{'name': 'items', 'ty': fty}, {'name': 'n', 'ty': tv('T'), 'default': {'value': None}}], 'opts': {}, 'hook': None, 'tvars': ['T']}
             ge.decl['classes'] += [di, dn, do]
             ge.class_info[gn] = dn
-        else:
+        elif not resub:
             ge.decl['classes'] += [di, do]
         ge.class_info[inner], ge.class_info[outer] = di, do
         arg = r.choice(['int', 'str', 'bool', 'float'])
@@ -2319,12 +2373,16 @@ def scenarios_generic_nested(seed, n, op='from_data'):
         lv = {'v': leaf}
         if named_bare:
             lv = {'v': leaf, 'code': 5}
+        if resub:
+            lv = {'v': [leaf], 'w': 3}
         if 'seq' in fty:
             items = [lv]
         elif 'map' in fty:
             items = {'k': lv}
         elif 'tuple' in fty:
             items = [lv, 3]
+        elif resub:
+            items = lv
         elif 'cls' in fty and fty is not it and not named_bare:
             items = {'v': lv}
         else:
